@@ -708,7 +708,22 @@ def evaluate_bytes(scn: dict, mutation: list) -> dict:
 # fresh PseudonymManager on the same database after every arrival
 # ------------------------------------------------------------------------------------------------
 
-def evaluate_persist(scn: dict, order: list, memo: dict | None = None) -> dict:
+class _WriteFault(Exception):
+    """The injected failure of one token write (disk error, or the process being killed at that point)."""
+
+
+def evaluate_persist(scn: dict, order: list, memo: dict | None = None, fault: tuple | None = None) -> dict:
+    """fault = (k, f): the f-th token write of the k-th offer fails; the history ends there with a restart."""
+    if scn.get("via") == "write-fault" and fault is None:
+        # fault-free run first (it reports the number of token writes of every step), then every single write fault
+        base = evaluate_persist({**scn, "via": None}, order, memo)
+        writes = base["writes"]
+        for k, n in enumerate(writes):
+            for f in range(1, n + 1):
+                r = evaluate_persist(scn, order, memo, fault=(k, f))
+                base["viol"] += r["viol"]
+                base["stats"]["reloads"] = base["stats"].get("reloads", 0) + 1
+        return base
     mat, items = scenario_items(scn)
     offered = [items[i] for i in order]
     cap = scn["cap"]
@@ -738,20 +753,37 @@ def evaluate_persist(scn: dict, order: list, memo: dict | None = None) -> dict:
     try:
         pm = im.get_pseudonym(mat.pub) if subst else PseudonymManager(db, public_key=mat.pub)
         pm.tree.unchained_max_size = cap
+        writes: list = []
+        real_insert = db.insert_token
+        counter = [0, None]
+
+        def counted_insert(*a, **kw):  # noqa: ANN002, ANN003, ANN202
+            counter[0] += 1
+            if counter[1] is not None and counter[0] == counter[1]:
+                raise _WriteFault
+            return real_insert(*a, **kw)
+        db.insert_token = counted_insert
         for k, it in enumerate(offered):
             tok = make_token(it, mat)
             before_wait = len(pm.tree.unchained)
+            counter[0], counter[1] = 0, (fault[1] if fault is not None and fault[0] == k else None)
+            died = False
             try:
                 if subst:
                     # a peer discloses this one token of the pseudonym (no metadata, no attestations)
                     im.substantiate(mat.pub, b"", it.wire, b"", b"")
                 else:
                     pm.add_credential(tok, mat.dummy_md)
+            except _WriteFault:
+                died = True
             except Exception as e:  # noqa: BLE001
                 viol.append((f"exception:add_credential:{type(e).__name__}:{it.cls}",
                              head + f"add_credential({it.label}) after {labels[:k]} raised {type(e).__name__}: {e}",
                              order[:k + 1]))
             waited += len(pm.tree.unchained) > before_wait
+            writes.append(counter[0])
+            if fault is not None and not died:
+                continue                 # before the fault: the fault-free run has judged these steps already
             exp = pre.steps[k]
             again = PseudonymManager(db, public_key=mat.pub)        # "restart": the untouched loader reads the rows
             stored = again.tree.elements
@@ -781,8 +813,14 @@ def evaluate_persist(scn: dict, order: list, memo: dict | None = None) -> dict:
                              f"there (get_root_path: {[bool(again.tree.get_root_path(stored[h])) for h in sorted(loose)]}"
                              f"); the live tree held {_names(pm.tree.elements.keys(), name_of)}", pfx))
             missing = exp.contained - have
-            if subst:
-                missing = set()      # substantiate keeps disclosed tokens in memory only: completeness is not demanded
+            if subst or died:
+                missing = set()      # substantiate keeps disclosed tokens in memory only: completeness is not demanded;
+                #                      nor is it after a write that failed
+            if died:
+                viol[:] = [(key.replace("persisted-tree-", "persisted-tree-after-failed-write-"), what.replace(
+                    "after offering", f"the token write number {fault[1]} of the last offer failed; after offering"), px)
+                    for key, what, px in viol]
+                break
             if missing and exp.max_waiting <= cap and not incomplete:
                 incomplete = True
                 first: dict = {}
@@ -804,7 +842,7 @@ def evaluate_persist(scn: dict, order: list, memo: dict | None = None) -> dict:
     finally:
         db.close()
     tr = ("persist", cap, tuple(sorted(o.cls for o in offered if o.cls != "tree")), tuple(trace))
-    return {"viol": viol, "outcome": None, "trace": tr, "nontrivial": waited > 0 or len(items) > len(scn["parents"]),
+    return {"viol": viol, "outcome": None, "trace": tr, "writes": writes, "nontrivial": waited > 0 or len(items) > len(scn["parents"]),
             "stats": {"waited": waited, "content_attached": 0, "correct_content_refused": 0}, "overflow": False}
 
 
@@ -1139,6 +1177,9 @@ def build_scenarios(ctx: core.Ctx) -> tuple[list[dict], dict]:
                     "database": "real IdentityDatabase(':memory:'), shared by the live and the reloaded manager"}
     for p in shapes(b["persist"]["labelled_n_max"], b["persist"]["unlabelled_n_max"]):
         scns.append(scenario("persist", cv, owner, foreign, p))
+    # a token write that fails (every single one of every offer of every order), then the restart
+    for p in shapes(4 if T else 3, 5 if T else 4):
+        scns.append(scenario("persist-write-fault", cv, owner, foreign, p, via="write-fault"))
     # the same restarts when the tokens of a (foreign) pseudonym arrive through IdentityManager.substantiate
     for p in shapes(4 if T else 3, 5 if T else 4):
         scns.append(scenario("persist-subst", cv, owner, foreign, p, via="substantiate"))
